@@ -193,6 +193,7 @@ var clientIPs = []clientIP{
 
 func main() {
 	r := vcommon.Start("C02", "exploration")
+	loadReplay(r)
 	r.Rule = "http: (exclude list x action/protocol x path x credential placement x client IP) x auth-server answer (status x body, redirects, hang-up, unreachable); " +
 		"jwt A: every minted token (signer/alg x exp x iss x aud x permission claim x claim key) x tamper x configured (issuer, audience, claim key); " +
 		"jwt B: (token field x password x query placement) over {valid, wrong-key} tokens x action/protocol x JWTInHTTPQuery x exclude; " +
@@ -213,5 +214,6 @@ func main() {
 		"expiry uses the wall clock with a margin of one hour (exp = now +- 1h); no boundary instants",
 		"exhaustive inside the listed alphabets only; reported user name and AskCredentials are not part of the C02 statement and are not judged",
 	}
+	replaySummary()
 	r.Finish()
 }
